@@ -57,12 +57,42 @@ class VirtualLoop(asyncio.SelectorEventLoop):
         return int(round(self.vtime * 1000))
 
 
-def run(coro: Coroutine[Any, Any, Any], *, horizon: float | None = None) -> Any:
+class Stuck(BaseException):
+    """The code under test kept the event loop busy without ever suspending (e.g. `while True: await read()` on a
+    stream at EOF, where read() returns at once): no virtual time passes, no horizon can fire.  Raised from a SIGALRM
+    handler inside whatever frame is executing once `real_limit` seconds of REAL time are used up; a BaseException so
+    that `except Exception` in the code under test does not swallow it."""
+
+
+def run(coro: Coroutine[Any, Any, Any], *, horizon: float | None = None, real_limit: float | None = 900.0) -> Any:
     """Run `coro` to completion on a fresh virtual loop.
 
     `horizon` (virtual seconds) bounds the execution: reaching it raises
     TimeoutError from the outer wait (used to tell 'still pending after N
-    virtual seconds' apart from 'blocked with no timer at all')."""
+    virtual seconds' apart from 'blocked with no timer at all').
+    `real_limit` (real seconds, main thread only, only if nobody else uses SIGALRM): watchdog against code that never
+    yields, see `Stuck`."""
+    import signal
+    import threading
+
+    armed = False
+    if (real_limit and threading.current_thread() is threading.main_thread()
+            and signal.getsignal(signal.SIGALRM) in (signal.SIG_DFL, None)
+            and signal.getitimer(signal.ITIMER_REAL)[0] == 0.0):
+        def _alarm(_signum: int, _frame: Any) -> None:
+            raise Stuck(f"event loop busy for {real_limit} s of real time without suspending")
+
+        signal.signal(signal.SIGALRM, _alarm)
+        signal.setitimer(signal.ITIMER_REAL, real_limit)
+        armed = True
+
+    def disarm() -> None:
+        nonlocal armed
+        if armed:
+            signal.setitimer(signal.ITIMER_REAL, 0)
+            signal.signal(signal.SIGALRM, signal.SIG_DFL)
+            armed = False
+
     loop = VirtualLoop()
     try:
         asyncio.set_event_loop(loop)
@@ -74,6 +104,7 @@ def run(coro: Coroutine[Any, Any, Any], *, horizon: float | None = None) -> Any:
             return loop.run_until_complete(bounded())
         return loop.run_until_complete(coro)
     finally:
+        disarm()
         try:
             _cancel_all(loop)
         finally:
